@@ -59,7 +59,7 @@ func init() {
 	register(&Property{
 		Meta: report.Meta{
 			Property:    "C01",
-			Explanation: "Path-fact analysis of token/invocation (SSA CFG, all acyclic paths, no execution): every success path of both ExecutionAllowed entry points passes through the success of the four stages; verifyProofs cannot succeed with an empty proof list; loadProofs loads proof[i] for every i and fails on any loader error; in verifyProofs every iteration over ALL proofs is guarded by Subject(dlg)==recv.subject and Audience(dlg)==running issuer (init: invocation issuer, then Issuer(dlg)), and success requires the last delegation to be a root; fields audience/meta/nonce/invokedAt/cause are not read anywhere in the authorization path. This decides the structural necessary conditions of the statement, not the behaviour of loaders or DID parsing.",
+			Explanation: "Path-fact analysis of token/invocation (SSA CFG, all acyclic paths, no execution): every success path of both ExecutionAllowed entry points passes through the success of the four stages; verifyProofs cannot succeed with an empty proof list; loadProofs loads proof[i] for every i and fails on any loader error; in verifyProofs every iteration over ALL proofs is guarded by Subject(dlg)==recv.subject and Audience(dlg)==running issuer (init: invocation issuer, then Issuer(dlg)), and success requires the last delegation to be a root; fields audience/meta/nonce/invokedAt/cause are not read anywhere in the authorization path. This decides the structural necessary conditions of the statement, not the behaviour of loaders or DID parsing. (R3, R4) in loadProofs and verifyProofs (and new helpers) the block a loop test exits to has no predecessor inside the loop other than the header.",
 			Assumptions: []string{"delegation.Loader returns the delegation the CID names (caller's contract)", "Go struct equality on did.DID (two comparable fields)", "go/ssa faithfully represents the source"},
 			Trusted:     []string{"golang.org/x/tools/go/ssa v0.29.0", "go/types"},
 			NotDecided:  []string{"behaviour of the caller-supplied loader", "DID parsing (C16)"},
@@ -73,6 +73,8 @@ func runC01(x *Ctx) {
 	x.C.Rule("C01.R2", "verifyProofs cannot succeed with zero proofs", 1)
 	x.C.Rule("C01.R3", "loadProofs loads every proof, in order, and fails on a loader error", 5)
 	x.C.Rule("C01.R4", "per-link subject / audience guards on every iteration, root check after the loop", 5)
+	defer noBreakOut(x, "C01.R4", invTok+"verifyProofs")
+	defer noBreakOut(x, "C01.R3", invTok+"loadProofs")
 	x.C.Rule("C01.R5", "optional audience (and other irrelevant fields) never read on the authorization path", 1)
 	x.C.Rule("C01.ACC", "getters return their namesake field", 6)
 
